@@ -178,8 +178,36 @@ def pmap(fn, payloads, nproc=None):
     if nproc <= 1 or len(payloads) <= 1:
         return [fn(p) for p in payloads]
     ctx = mp.get_context("fork")
-    with ctx.Pool(min(nproc, len(payloads))) as pool:
+    # maxtasksperchild=1: every payload runs in a fresh fork of the parent, so the calls a worker made for an
+    # earlier payload can never influence a later one; the call history of a case is the parent's (small,
+    # deterministic) prefix plus the preceding cases of its own payload -- which History records.
+    with ctx.Pool(min(nproc, len(payloads)), maxtasksperchild=1) as pool:
         return pool.map(_call, [(name, p) for p in payloads], chunksize=1)
+
+
+class History:
+    """Records the cases a worker has executed so far in its process, so that a failure that depends on the
+    preceding calls (a cache keyed too coarsely, a memo on a reused object) can be replayed with them.
+    `to_case` turns a raw record into the JSON case that mc.replay understands."""
+
+    def __init__(self, to_case=None, max_attached=2):
+        self.raw = []
+        self.to_case = to_case or (lambda r: r)
+        self.attached = 0
+        self.max_attached = max_attached
+
+    def add(self, raw):
+        self.raw.append(raw)
+
+    def attach(self, case):
+        """Return `case` with the list of preceding cases (first few failures of the chunk only).
+        Call BEFORE add() of the failing case."""
+        if self.attached >= self.max_attached:
+            return case
+        self.attached += 1
+        out = dict(case)
+        out["preceding"] = [self.to_case(r) for r in self.raw]
+        return out
 
 
 def chunks(total, nchunks):
